@@ -159,18 +159,20 @@ func decodeTx(era Era, raw []byte) (ledger.Transaction, error) {
 // ---- ledger state -----------------------------------------------------------
 
 type State struct {
-	net       uint
-	utxo      map[string]common.Utxo
-	stakeReg  map[[28]byte]bool
-	pools     map[[28]byte]bool
-	dreps     map[[28]byte]uint64 // recorded deposit
-	rewards   map[[28]byte]uint64
-	drepDeleg map[[28]byte]bool
+	net        uint
+	utxo       map[string]common.Utxo
+	stakeReg   map[[28]byte]bool
+	pools      map[[28]byte]bool
+	poolRetire map[[28]byte]*uint64 // pending retirement epoch of a registered pool
+	committee  map[[28]byte]common.CommitteeMember
+	dreps      map[[28]byte]uint64 // recorded deposit
+	rewards    map[[28]byte]uint64
+	drepDeleg  map[[28]byte]bool
 }
 
 func newState(net uint8) *State {
 	return &State{net: uint(net), utxo: map[string]common.Utxo{}, stakeReg: map[[28]byte]bool{},
-		pools: map[[28]byte]bool{}, dreps: map[[28]byte]uint64{}, rewards: map[[28]byte]uint64{},
+		pools: map[[28]byte]bool{}, poolRetire: map[[28]byte]*uint64{}, committee: map[[28]byte]common.CommitteeMember{}, dreps: map[[28]byte]uint64{}, rewards: map[[28]byte]uint64{},
 		drepDeleg: map[[28]byte]bool{}}
 }
 
@@ -232,7 +234,12 @@ func (s *State) TimeToSlot(t time.Time) (uint64, error) {
 }
 func (s *State) PoolCurrentState(p common.PoolKeyHash) (*common.PoolRegistrationCertificate, *uint64, error) {
 	if s.pools[[28]byte(p)] {
-		return &common.PoolRegistrationCertificate{Operator: p}, nil, nil
+		var ret *uint64
+		if e := s.poolRetire[[28]byte(p)]; e != nil {
+			v := *e
+			ret = &v
+		}
+		return &common.PoolRegistrationCertificate{Operator: p}, ret, nil
 	}
 	return nil, nil, nil
 }
@@ -262,8 +269,6 @@ func (s *State) NetworkId() uint { return s.net }
 func (s *State) CostModels() map[common.PlutusLanguage]common.CostModel {
 	return map[common.PlutusLanguage]common.CostModel{}
 }
-func (s *State) CommitteeMember(common.Blake2b224) (*common.CommitteeMember, error) { return nil, nil }
-func (s *State) CommitteeMembers() ([]common.CommitteeMember, error)                { return nil, nil }
 func (s *State) DRepRegistration(c common.Blake2b224) (*common.DRepRegistration, error) {
 	if d, ok := s.dreps[[28]byte(c)]; ok {
 		return &common.DRepRegistration{Credential: c, Deposit: d}, nil
@@ -288,3 +293,21 @@ func (s *State) DRepDelegation(c common.Credential) (*common.Drep, error) {
 
 var _ common.LedgerState = (*State)(nil)
 var _ common.DRepDelegationState = (*State)(nil)
+
+func (s *State) CommitteeMember(c common.Blake2b224) (*common.CommitteeMember, error) {
+	if m, ok := s.committee[[28]byte(c)]; ok {
+		mm := m
+		return &mm, nil
+	}
+	return nil, nil
+}
+
+func (s *State) CommitteeMembers() ([]common.CommitteeMember, error) {
+	var out []common.CommitteeMember
+	for _, k := range drepKeys { // deterministic order
+		if m, ok := s.committee[keys[k].hash]; ok {
+			out = append(out, m)
+		}
+	}
+	return out, nil
+}
